@@ -33,6 +33,8 @@ BODIES_QUICK = [
     ("other-stream", [("other", "work 1"), ("sleep", 120), ("other", "work 2")]),
     # the body announces the end message itself: at once, and after the spinner has gone round once (4 values, 100 ms each)
     ("msg-end", [("msg", "End")]),
+    # a message that looks like the placeholders of the indicator's format: it is text and is shown as it is
+    ("msg-placeholder", [("msg", "docs/{indicator}.html {elapsed} {message}")]),
     ("sleep4-msg-end", [("sleep", 420), ("msg", "End")]),
 ]
 BODIES_THOROUGH = BODIES_QUICK + [
@@ -216,7 +218,7 @@ class ManualSpec(object):
             else:
                 out.append(("advance", d))
                 out.append(("set_message", d, "M1"))
-                out.append(("set_message", d, "Longer message"))
+                out.append(("set_message", d, "Longer {indicator} {elapsed} text"))  # a message is text, not a format
                 out.append(("finish", d, "End", 0))
                 out.append(("finish", d, "End", 1))
         return out
